@@ -224,7 +224,7 @@ def rules(ck, P):
                     init = ir.strip(init["recv"])
                 if s["init"].get("k") == "try" or ir.contains(s["init"], lambda y: y.get("k") == "try"):
                     bi = i
-        ck.check(bi is not None and ir.contains(sts[bi], lambda y: ir.place_str(y).endswith("header.blocks_range")), "R-COMMIT-ORDER", b["q"] + "|f-block-index",
+        ck.check(bi is not None and ir.contains(sts[bi], lambda y: y.get("k") == "field" and y.get("name") == "blocks_range" and "FileHeader" in ((ir.strip(y["e"]).get("t") or "") + (ir.strip(y["e"]).get("ta") or ""))), "R-COMMIT-ORDER", b["q"] + "|f-block-index",
                  "the block index named by the header is read and decoded unconditionally, with `?`, before the reader is returned",
                  "the block index is not decoded unconditionally before Ok", ir.loc(b))
 
